@@ -335,6 +335,194 @@ fn check<C: Pv>(c: &Case) -> Report {
     rep.class(if ok1 { "outcome:edited-accepted" } else { "outcome:edited-rejected" })
 }
 
+// ---------------------------------------------------------------------------------------------
+// Metadata that is not serialised: the lookup contexts an in-memory proof carries
+// ---------------------------------------------------------------------------------------------
+
+/// `stark_common.lookups` travels with an in-memory `BatchStarkProof` but is not serialised.
+/// A prover can (a) prove an invalid trace against weakened lookup contexts (they are public
+/// fields of `CircuitProverData`, and `prove` copies them into the proof) or (b) edit the
+/// contexts of a finished proof.  Either way the proof of an invalid trace must stay rejected,
+/// and the verdict must not depend on whether the proof went through serialisation.
+#[derive(Clone, Debug, Serialize, Deserialize, Hash)]
+pub struct MemCase {
+    pub prog: Prog,
+    pub public_lanes: u8,
+    pub alu_lanes: u8,
+    pub horner_k: u8,
+    /// which cell makes the trace invalid: (public table?, row, column selector)
+    pub invalid: (bool, u16, u8),
+    /// tables whose lookup contexts are emptied (bit i = table i; 0 is mapped to "all")
+    pub strip_mask: u8,
+    /// false: weaken the prover's common data before proving; true: edit the finished proof
+    pub proof_side: bool,
+}
+
+pub const RULE_MEM: &str = "BatchStarkProofs of random circuits whose trace has one relevant cell changed (Public or ALU table; natively rejected) x the lookup contexts of a subset of tables emptied, either in the prover's common data before proving (the proof is then made for the weakened constraint system and carries the weakened contexts) or in the finished in-memory proof. Oracle: the in-memory proof is rejected, and verify(deser(ser(p))) == verify(p) (postcard and JSON). Non-trivial = every case whose trace is invalid by the validity oracle; distinct on (field, side, stripped-table set, which table was invalidated)";
+
+fn check_mem<C: Pv>(c: &MemCase) -> Report {
+    use p3_field::PrimeCharacteristicRing;
+    let built: Built<C> = e1::interpret::<C>(&c.prog, e1::Excl::ALL_SAT);
+    let Built { builder, publics, privates, .. } = built;
+    let circuit = match builder.build() {
+        Ok(x) => x,
+        Err(e) => return Report::fail("C16/build-error", format!("{e:?}")),
+    };
+    if !e1::horner_shape_ok(&circuit) {
+        return Report::pass().class("excluded_by_known_finding:horner-positional-contract");
+    }
+    let mut runner = circuit.runner();
+    if runner
+        .set_public_inputs(&publics)
+        .and_then(|_| runner.set_private_inputs(&privates))
+        .is_err()
+    {
+        return Report::discard("inputs rejected");
+    }
+    let Ok(mut traces) = runner.run() else {
+        return Report::discard("honest run failed");
+    };
+    let pk = packing(&C10Case {
+        prog: Prog { field: 0, recompose_npo: false, stmts: vec![] },
+        public_lanes: c.public_lanes,
+        alu_lanes: c.alu_lanes,
+        horner_k: c.horner_k,
+        log_min_height: 0,
+    });
+    let npo = NpoSel { recompose: c.prog.recompose_npo, debug_lookups: false, poseidon2: None, poseidon1: None };
+    let mut setup = match C::setup(&circuit, &pk, &npo) {
+        Ok(s) => s,
+        Err(PvErr::Setup(m)) if m.starts_with("UnclaimedPrivateInput") => {
+            return Report::discard("documented: unclaimed private input");
+        }
+        Err(e) => return Report::discard(format!("setup failed: {}", e.kind())),
+    };
+    // ---- make the trace invalid
+    let (in_public, row, col) = c.invalid;
+    let mut which = "none";
+    if in_public && !traces.public_trace.values.is_empty() {
+        let r = pick(row, traces.public_trace.values.len());
+        traces.public_trace.values[r] += C::EF::ONE;
+        which = "public";
+    } else if !traces.alu_trace.values.is_empty() {
+        let rows = traces.alu_trace.values.len();
+        let r = pick(row, rows);
+        let k = [0usize, 1, 3][(col % 3) as usize];
+        let pack_k = 2 + (c.horner_k % 3) as usize;
+        if !forge::uncommitted_alu_cells(&circuit, pack_k).contains(&(r, k))
+            && !(traces.alu_trace.op_kind[r] == p3_circuit::AluOpKind::BoolCheck && k == 1)
+        {
+            traces.alu_trace.values[r][k] += C::EF::ONE;
+            which = "alu";
+        }
+    }
+    if which == "none" || forge::trace_validity::<C>(&circuit, &traces).is_empty() {
+        return Report::discard("no invalidating cell in this trace");
+    }
+    // ---- weaken the lookup contexts
+    let n_tables = setup.cpd.prover_data.common.lookups.len();
+    let mask = if c.strip_mask == 0 { u8::MAX } else { c.strip_mask };
+    let stripped: Vec<usize> = (0..n_tables).filter(|i| mask >> (i % 8) & 1 == 1).collect();
+    // control: with the honest contexts the invalid trace must already be rejected (an invalid
+    // trace the verifier accepts anyway is C04's subject, not a metadata effect)
+    let baseline = match C::prove(&setup, &traces) {
+        Ok(p) => p,
+        Err(_) => return Report::discard("prover refused the trace"),
+    };
+    if C::verify(&setup, &baseline).is_ok() {
+        return Report::discard("invalid trace accepted natively with honest metadata (C04's business)");
+    }
+    let mut proof = if c.proof_side {
+        baseline
+    } else {
+        for &i in &stripped {
+            setup.cpd.prover_data.common.lookups[i] = Default::default();
+        }
+        match C::prove(&setup, &traces) {
+            Ok(p) => p,
+            Err(_) => return Report::discard("prover refused the trace (weakened contexts)"),
+        }
+    };
+    if c.proof_side {
+        for &i in &stripped {
+            if i < proof.stark_common.lookups.len() {
+                proof.stark_common.lookups[i] = Default::default();
+            }
+        }
+    }
+    let side = if c.proof_side { "proof-side" } else { "prover-side" };
+    let rep = Report::pass()
+        .class(format!("field:{}", C::NAME))
+        .class(format!("side:{side}"))
+        .class(format!("invalid:{which}"))
+        .class(if stripped.len() == n_tables { "stripped:all-tables" } else { "stripped:some-tables" })
+        .nontrivial(true)
+        .key(hash_of(&(C::NAME, side, &stripped, which)));
+    let v_mem = C::verify(&setup, &proof);
+    if let Err(PvErr::VerifyPanic(m)) = &v_mem {
+        return fail(rep, &format!("C16/verify-panic:in-memory-lookups:{side}"), m.chars().take(300).collect());
+    }
+    if v_mem.is_ok() {
+        return fail(
+            rep,
+            &format!("C16/invalid-proof-accepted:in-memory-lookups:{side}:{which}"),
+            format!("a proof of an invalid trace ({which} table cell changed) is accepted in memory when the lookup contexts of tables {stripped:?} are emptied ({side})"),
+        );
+    }
+    let bytes = C::proof_to_postcard(&proof);
+    match C::proof_from_postcard(&bytes) {
+        Ok(p2) => {
+            let v = C::verify(&setup, &p2);
+            if v.is_ok() != v_mem.is_ok() {
+                return fail(rep, "C16/serde-changes-verdict:postcard(in-memory-lookups)", format!("in memory {:?} vs round-tripped {:?}", v_mem.is_ok(), v.is_ok()));
+            }
+        }
+        Err(e) => return fail(rep, "C16/serde-roundtrip-failed:postcard", e),
+    }
+    match C::proof_from_json(C::proof_to_json(&proof)) {
+        Ok(p2) => {
+            let v = C::verify(&setup, &p2);
+            if v.is_ok() != v_mem.is_ok() {
+                return fail(rep, "C16/serde-changes-verdict:json(in-memory-lookups)", format!("in memory {:?} vs round-tripped {:?}", v_mem.is_ok(), v.is_ok()));
+            }
+        }
+        Err(e) => return fail(rep, "C16/serde-roundtrip-failed:json", e),
+    }
+    rep.class("outcome:rejected-in-memory-and-after-roundtrip")
+}
+
+pub fn oracle_mem(c: &MemCase) -> Report {
+    dispatch_field!(c.prog.field as usize, C => check_mem::<C>(c))
+}
+
+fn mem_strategy() -> impl Strategy<Value = MemCase> {
+    (
+        e1::prog_strategy(GenOpts {
+            violating: false,
+            free_connect: false,
+            max_len: 10,
+            free_horner_weight: 1,
+            fields: vec![0, 1, 3, 4, 6],
+            ..GenOpts::default()
+        }),
+        0u8..4,
+        0u8..4,
+        0u8..3,
+        (any::<bool>(), any::<u16>(), 0u8..3),
+        prop_oneof![2 => Just(0u8), 1 => any::<u8>()],
+        any::<bool>(),
+    )
+        .prop_map(|(prog, public_lanes, alu_lanes, horner_k, invalid, strip_mask, proof_side)| MemCase {
+            prog,
+            public_lanes,
+            alu_lanes,
+            horner_k,
+            invalid,
+            strip_mask,
+            proof_side,
+        })
+}
+
 fn fail(mut rep: Report, sig: &str, msg: String) -> Report {
     rep.verdict = Verdict::Fail {
         sig: sig.to_string(),
@@ -393,4 +581,6 @@ pub fn run(ctx: &Ctx) {
     let n = ctx.tier.pick(4000, 200_000);
     ctx.explore("metadata", RULE, n, strategy, oracle);
     ctx.replay_known("metadata", |c: &Case| e1::without_exclusions(|| oracle(c)));
+    let n = ctx.tier.pick(1500, 60_000);
+    ctx.explore("in-memory-lookups", RULE_MEM, n, mem_strategy, oracle_mem);
 }
